@@ -15,19 +15,22 @@
  *                 parseproto:<hex> prefc prefs nocert noname notime verify vclient vclientopt clear
  *        (ca0, <valid> and <nid> are hints for the model only: what tls_config_new / OpenSSL answer here)
  *
- *   inj <read|write|close|handshake> role=<c|s> hc=<0|1> ab=<0|1> ef=<0|1> vn=<0|1> len=<n|big>
+ *   inj <read|write|close|handshake|hswrite|hsread> role=<c|s> hc=<0|1> ab=<0|1> ef=<0|1> vn=<0|1> len=<n|big>
  *       sock=<none|ok|notconn|bad> <ret>:<sslerr>:<q>...
  *        the wrapper under test is called ONCE on a context whose state flags are as given, with the
  *        SSL_* entry points (SSL_connect/accept/read/write/shutdown, SSL_get_error, ERR_peek_error)
  *        replaced by the scripted results (consumed in call order) ->
- *        "rv=<n> ## st=<hc><ef><ab> used=<k> err=<class>"
+ *        "rv=<n> ## st=<hc><ef><ab> used=<k> err=<class>"     (hswrite/hsread: tls_handshake, then tls_write/
+ *        tls_read on the same context: "rv=<handshake>,<io> ## ...")
  *
  *   hs <k=v>...      one complete session over an AF_UNIX socketpair, see do_hs().  Optional noise=<0..255>:
  *                    before each scheduler step, with probability noise/256, an UNRELATED library call that
  *                    is (correctly) rejected is made in the same thread on scratch objects -- bogus cipher
  *                    string, bogus curve, missing key file, missing CA file -- which leaves entries in
  *                    OpenSSL's per-thread error queue; for the session (and for the model) this is a no-op ->
- *        "est=<0|1> ver=<..> rvs=<ok|bad..> want=<ok|bad..> data=<ok|..> h=<c2s fnv>,<s2c fnv> eof=<..> close=<..>,<..> cut=<..>"
+ *        "est=<0|1> ver=<..> rvs=<ok|bad..> want=<ok|bad..> data=<ok|..> h=<c2s fnv>,<s2c fnv> eof=<..> close=<..>,<..> cut=<..> after=<ok|crossed(..)>"
+ *        after: an endpoint whose tls_handshake returned -1 keeps calling tls_write("ping!\n")/tls_read four more
+ *        times before it gives up; `crossed` = one of those calls returned > 0, or the peer received application data
  *        (with C17_DEBUG set: " ## chs= shs= cutread= cerr= serr= steps= wants=" for humans; not compared)
  *   usage: h <tmpdir> [<stats.json>]
  */
@@ -366,7 +369,8 @@ static void do_inj(char **w, int n)
 
 	if (n < 9) goto bad;
 	fn = w[1];
-	if (strcmp(fn, "read") && strcmp(fn, "write") && strcmp(fn, "close") && strcmp(fn, "handshake")) goto bad;
+	if (strcmp(fn, "read") && strcmp(fn, "write") && strcmp(fn, "close") && strcmp(fn, "handshake") &&
+	    strcmp(fn, "hswrite") && strcmp(fn, "hsread")) goto bad;
 	if (!kv_get(w + 2, 7, "role", &v) || (strcmp(v, "c") && strcmp(v, "s"))) goto bad;
 	role_s = v[0] == 's';
 #define FLAG(k, dst) do { if (!kv_get(w + 2, 7, k, &v) || (strcmp(v, "0") && strcmp(v, "1"))) goto bad; dst = v[0] == '1'; } while (0)
@@ -418,12 +422,25 @@ static void do_inj(char **w, int n)
 	if (!strcmp(fn, "read")) rv = tls_read(ctx, buf, buflen);
 	else if (!strcmp(fn, "write")) rv = tls_write(ctx, buf, buflen);
 	else if (!strcmp(fn, "close")) rv = tls_close(ctx);
-	else rv = tls_handshake(ctx);
+	else if (!strcmp(fn, "handshake")) rv = tls_handshake(ctx);
+	else {
+		/* tls_handshake, then one I/O call on the same context whatever the handshake said */
+		rv = tls_handshake(ctx);
+		printf("rv=%ld,", rv);
+		rv = fn[2] == 'w' ? tls_write(ctx, buf, buflen) : tls_read(ctx, buf, buflen);
+		inj_on = 0;
+		printf("%ld ## st=%d%d%d used=%d%s err=%s\n", rv,
+		       !!(ctx->state & TLS_HANDSHAKE_COMPLETE), !!(ctx->state & TLS_EOF_NO_CLOSE_NOTIFY),
+		       !!(ctx->state & TLS_DO_ABORT), inj_pos, inj_over ? "+over" : "",
+		       err_class(tls_error(ctx)));
+		goto done;
+	}
 	inj_on = 0;
 	printf("rv=%ld ## st=%d%d%d used=%d%s err=%s\n", rv,
 	       !!(ctx->state & TLS_HANDSHAKE_COMPLETE), !!(ctx->state & TLS_EOF_NO_CLOSE_NOTIFY),
 	       !!(ctx->state & TLS_DO_ABORT), inj_pos, inj_over ? "+over" : "",
 	       err_class(tls_error(ctx)));
+done:
 	if (ctx->socket >= 0 && ctx->socket != 1000000) close(ctx->socket);
 	ctx->socket = -1;
 	if (fd_other >= 0) close(fd_other);
@@ -598,9 +615,9 @@ static int g_debug;
 static char g_tmpdir[256];
 static long g_cutread = -99;
 static long st_sessions, st_est, st_steps, st_wants, st_calls, st_bytes, st_cutread0, st_cutreaderr, st_partial;
-static long st_noise, st_noise_dirty;
+static long st_noise, st_noise_dirty, st_refused, st_refused_calls;
 
-enum { PH_HS, PH_PING1, PH_PING2, PH_DATA, PH_DRAIN, PH_CLOSE, PH_CUTREAD, PH_DONE, PH_FAILED };
+enum { PH_HS, PH_REFUSED, PH_PING1, PH_PING2, PH_DATA, PH_DRAIN, PH_CLOSE, PH_CUTREAD, PH_DONE, PH_FAILED };
 
 struct ep {
 	struct tls *ctx, *base;
@@ -622,6 +639,8 @@ struct ep {
 	long bad_rv_val;
 	int bad_want;			/* WANT_* contradicted by poll() */
 	int reached_data;		/* handshake and the one-byte ping-pong went through */
+	int refuse_left;		/* I/O attempts still to make on a context whose handshake failed */
+	int crossed;			/* application data accepted/delivered although a handshake was refused */
 	char first_err[160];		/* tls_error text at the first fatal result */
 	long nwants, ncalls;
 };
@@ -753,7 +772,26 @@ static void ep_step(struct ep *e, struct ep *peer)
 		rv = tls_handshake(e->ctx);
 		note_rv(e, rv, 'h', 0);
 		if (rv == 0) { e->hs_rv = 0; e->phase = PH_PING1; }
-		else if (rv == -1 || rv > 0 || rv < -3) { e->hs_rv = rv; ep_fail(e); }
+		else if (rv == -1) {
+			/* refused: an I/O layer that retries keeps using the context for a while */
+			e->hs_rv = rv;
+			if (!e->first_err[0] && tls_error(e->ctx))
+				snprintf(e->first_err, sizeof e->first_err, "%s", tls_error(e->ctx));
+			e->phase = PH_REFUSED; e->refuse_left = 4; st_refused++;
+		}
+		else if (rv > 0 || rv < -3) { e->hs_rv = rv; ep_fail(e); }
+		break;
+	case PH_REFUSED:	/* nothing may be sent or delivered on a context whose handshake failed */
+		if (e->refuse_left & 1) {
+			rv = tls_read(e->ctx, g_rbuf, 16);
+			note_rv(e, rv, 'd', 16);
+		} else {
+			rv = tls_write(e->ctx, "ping!\n", 6);
+			note_rv(e, rv, 'd', 6);
+		}
+		st_refused_calls++;
+		if (rv > 0) e->crossed = 1;
+		if (--e->refuse_left <= 0) ep_fail(e);
 		break;
 	case PH_PING1:	/* client: send 'P'; server: receive it */
 		if (!e->is_server) {
@@ -765,6 +803,7 @@ static void ep_step(struct ep *e, struct ep *peer)
 		} else {
 			rv = tls_read(e->ctx, &b, 1);
 			note_rv(e, rv, 'd', 1);
+			if (rv > 0 && peer->hs_rv != 0 && peer->hs_rv != -99) e->crossed = 1;
 			if (rv == 1 && b == 'P') e->phase = PH_PING2;
 			else if (rv == -1 || rv == 0 || rv == 1) ep_fail(e);
 		}
@@ -779,6 +818,7 @@ static void ep_step(struct ep *e, struct ep *peer)
 		} else {
 			rv = tls_read(e->ctx, &b, 1);
 			note_rv(e, rv, 'd', 1);
+			if (rv > 0 && peer->hs_rv != 0 && peer->hs_rv != -99) e->crossed = 1;
 			if (rv == 1 && b == 'Q') { e->phase = PH_DATA; e->reached_data = 1; }
 			else if (rv == -1 || rv == 0 || rv == 1) ep_fail(e);
 		}
@@ -997,7 +1037,7 @@ static void do_hs(char **w, int n)
 	stage = "connect";
 	if (tls_connect_fds(C.ctx, C.fd, C.fd, host) != 0) {
 		/* a policy outcome (verify_name on without a server name) rather than a harness fault */
-		printf("est=0 ver=- rvs=ok want=ok data=- h=-,- eof=- close=-,- cut=-");
+		printf("est=0 ver=- rvs=ok want=ok data=- h=-,- eof=- close=-,- cut=- after=ok");
 		if (g_debug) printf(" ## chs=connect-fail cerr=%s", err_class(tls_error(C.ctx)));
 		printf("\n");
 		goto cleanup;
@@ -1093,6 +1133,7 @@ static void do_hs(char **w, int n)
 	} else {
 		printf(" data=- h=-,- eof=- close=-,- cut=-");
 	}
+	printf(" after=%s", (C.crossed || S.crossed) ? (C.crossed ? "crossed(client)" : "crossed(server)") : "ok");
 	st_sessions++; st_est += est; st_steps += steps; st_wants += C.nwants + S.nwants;
 	st_calls += C.ncalls + S.ncalls; st_bytes += C.nin + S.nin;
 	if (est && P.cut) { if (g_cutread == 0) st_cutread0++; else if (g_cutread == -1) st_cutreaderr++; }
@@ -1158,9 +1199,10 @@ int main(int argc, char **argv)
 			fprintf(f, "{\"sessions\": %ld, \"established\": %ld, \"steps\": %ld, \"want_events\": %ld, "
 				"\"tls_calls\": %ld, \"bytes_received\": %ld, \"partial_writes\": %ld, "
 				"\"cut_read_0\": %ld, \"cut_read_err\": %ld, \"certs_generated\": %d, "
-				"\"noise_calls\": %ld, \"noise_calls_leaving_error_queue_dirty\": %ld}\n",
+				"\"noise_calls\": %ld, \"noise_calls_leaving_error_queue_dirty\": %ld, "
+				"\"refused_endpoints\": %ld, \"io_calls_after_refusal\": %ld}\n",
 				st_sessions, st_est, st_steps, st_wants, st_calls, st_bytes, st_partial,
-				st_cutread0, st_cutreaderr, g_ncerts, st_noise, st_noise_dirty);
+				st_cutread0, st_cutreaderr, g_ncerts, st_noise, st_noise_dirty, st_refused, st_refused_calls);
 			fclose(f);
 		}
 	}
